@@ -106,6 +106,35 @@ static std::string runSpec(const Spec& s)
                     if (std::fabs(c.theta(j) - g.theta(2 * j)) > 1e-14)
                         return "BAD nesting: angle " + std::to_string(j);
             }
+            // the number of levels setup() would report for this grid must be admitted by the grid: ask the real
+            // chooseNumberOfLevels() and coarsen that many times
+            {
+                Cfg k;
+                k.exact  = 0;
+                k.maxlev = -1;
+                auto sv  = makeSolver(k);
+                int want = expectedLevels(g.nr(), g.ntheta(), -1);
+                int got  = -1;
+                try {
+                    got = sv->chooseNumberOfLevels(g);
+                }
+                catch (const std::exception&) {
+                    got = 1; // "fewer than two levels" is reported by an exception
+                }
+                if (std::max(want, 1) != got && !(want < 2 && got == 1))
+                    return "BAD levels: chooseNumberOfLevels gives " + std::to_string(got) + ", the grid " + std::to_string(g.nr()) + "x" +
+                           std::to_string(g.ntheta()) + " admits " + std::to_string(want);
+                PolarGrid f = g;
+                for (int d = 1; d < got; d++) {
+                    if ((f.nr() - 1) % 2 != 0 || f.ntheta() % 4 != 0)
+                        return "BAD levels: level " + std::to_string(d - 1) + " (" + std::to_string(f.nr()) + "x" + std::to_string(f.ntheta()) +
+                               ") cannot be coarsened but " + std::to_string(got) + " levels are reported";
+                    PolarGrid c = coarseningGrid(f);
+                    if (c.radius(0) != f.radius(0) || c.radius(c.nr() - 1) != f.radius(f.nr() - 1))
+                        return "BAD levels: coarsening to level " + std::to_string(d) + " loses a boundary";
+                    f = c;
+                }
+            }
             return "OK " + std::to_string(g.nr()) + "x" + std::to_string(g.ntheta());
         }
         if (s.kind == "levels") {
